@@ -149,21 +149,53 @@ def leanchecker(modules: list[str]) -> tuple[bool, str]:
     return p.returncode == 0, (p.stdout + p.stderr)[-2000:]
 
 
+_DRIVER = None
+
+
+def _driver_proc():
+    """one long-lived model driver (forking a large Python process per call is slow)"""
+    global _DRIVER
+    if _DRIVER is None or _DRIVER.poll() is not None:
+        if not DRIVER.exists():
+            raise LeanError(f'model driver not built: {DRIVER}')
+        _DRIVER = subprocess.Popen([str(DRIVER)], stdin=subprocess.PIPE, stdout=subprocess.PIPE, text=True, bufsize=1)
+    return _DRIVER
+
+
 def drive(lines: list[tuple[str, str]]) -> dict[str, str]:
     """Send `(id, op-line)` pairs through the model driver; id -> result line."""
+    global _DRIVER
     if not lines:
         return {}
-    if not DRIVER.exists():
-        raise LeanError(f'model driver not built: {DRIVER}')
-    text = ''.join(f'{i} {l}\n' for i, l in lines)
-    p = subprocess.run([str(DRIVER)], input=text, capture_output=True, text=True, timeout=3000)
-    if p.returncode != 0:
-        raise LeanError(f'driver failed: {p.stderr[-2000:]}')
+    import threading
     out = {}
-    for line in p.stdout.splitlines():
-        i, _, rest = line.partition(' ')
-        out[i] = rest
-    if len(out) != len(lines):
+    p = _driver_proc()
+    err: list = []
+
+    def writer():
+        try:
+            for i, l in lines:
+                p.stdin.write(f'{i} {l}\n')
+            p.stdin.flush()
+        except Exception as e:  # noqa: BLE001
+            err.append(e)
+
+    th = threading.Thread(target=writer, daemon=True)
+    th.start()
+    try:
+        for _ in lines:
+            line = p.stdout.readline()
+            if not line:
+                _DRIVER = None
+                raise LeanError('model driver closed its output (crashed?)')
+            i, _, rest = line.rstrip('\n').partition(' ')
+            out[i] = rest
+    finally:
+        th.join(timeout=60)
+    if err:
+        _DRIVER = None
+        raise LeanError(f'driver failed: {err[0]}')
+    if len(out) != len({i for i, _ in lines}):
         raise LeanError(f'driver answered {len(out)} of {len(lines)} lines')
     return out
 
